@@ -18,7 +18,7 @@ use std::panic::{catch_unwind, AssertUnwindSafe};
 
 pub const ID: &str = "C13";
 
-const RULES: [&str; 5] = ["#ruledef {", "    nop => 0x00", "    ld {x: u8} => 0x10 @ x", "    jmp {a: u16} => 0x20 @ a", "}"];
+const RULES: [&str; 9] = ["#ruledef {", "    nop => 0x00", "    ld {x: u8} => 0x10 @ x", "    jmp {a: u16} => 0x20 @ a", "}", "#fn byte(x) =>", "{", "    assert(x < 256), x`8", "}"];
 const ITEMS: [&str; 8] = ["nop", "ld 0x12", "jmp 0x1234", "A:", ".l:", "k = 5", "#d8 1, 2", "#res 1"];
 const IDX_A: usize = 3;
 const IDX_L: usize = 4;
@@ -75,6 +75,11 @@ fn faults_for(items: &[usize], pos: usize) -> Vec<Fault> {
         f("malformed-directive", "#d8 ,", Some("#d64 \"→😀\", ,")),
         f("malformed-directive", "#res", None),
         f("malformed-directive", "#bogus", None),
+        // the operand is rejected inside a user function: the fault is still on the line that calls it
+        f("out-of-range", "#d byte(300)", None),
+        f("out-of-range", "kk = byte(300)", None),
+        // a multi-line definition block whose SECOND field line is wrong (written as one fault "line" with embedded
+        // breaks is not possible here: the block is given on one line, fields separated by commas, the bad one last)
         f("malformed-directive", "#d8 1 +", None),
         f("malformed-directive", "#ruledef { => 0x55 }", None),
     ];
@@ -570,7 +575,10 @@ fn judge(b: &Built, meta: &Meta, l: &mut Local, verbose: bool) {
             for i in &m.inner {
                 located(i, &mut nested);
             }
-            for n in nested.iter().filter(|n| n.kind == "error") {
+            // (a fault that lies in the ARGUMENT of a user function is the exception: the nested error is the failed
+            // assert inside the function body, on the function's own lines)
+            let through_function = meta.coords["fault_text"].as_str().map(|t| t.contains("byte(")).unwrap_or(false);
+            for n in nested.iter().filter(|n| n.kind == "error" && !through_function) {
                 let (f, (s, _)) = (n.file.clone().unwrap_or_default(), n.range.unwrap());
                 let Some(t) = text_of(&f) else { continue };
                 if s > t.len() || !t.is_char_boundary(s) {
@@ -693,7 +701,51 @@ pub fn run(ctx: &Ctx) -> Report {
     });
     rep.absorb(local);
     rep.extra("levels", json!(rep.local.counters.clone()));
-    rep.extra("bound", json!({"max_items": maxlen, "alphabet": ITEMS, "rules": RULES, "decorations": DECS, "fault_variants": ["xyz 1", "ld undefined_sym", "ld 0x1ff", "ld 256", "#d8 ,", "#res", "#bogus", "#d8 1 +", "#ruledef { => 0x55 }", "repeat of each label redeclarable at that position"]}));
+    // directed: faults inside multi-line blocks (a bank definition whose k-th field line is misspelt, a rule block whose
+    // k-th rule line is malformed), in the root file and in an included file, with multi-byte text around
+    {
+        let mut directed: Vec<Built> = vec![];
+        let bank_fields = ["    #addr 0x100", "    #size 0x10", "    #outp 0"];
+        for bad in 0..=bank_fields.len() {
+            for in_include in [false, true] {
+                for deco in [false, true] {
+                    let mut lines: Vec<String> = vec![];
+                    if deco {
+                        lines.push("; \u{e9}\u{2192}\u{1f600}".into());
+                    }
+                    lines.push("#bankdef a".into());
+                    lines.push("{".into());
+                    let mut fault_line = 0;
+                    for (k, f) in bank_fields.iter().enumerate() {
+                        if k == bad {
+                            lines.push("    #outpt 0 ; \u{e9}".into());
+                            fault_line = lines.len();
+                        }
+                        lines.push(f.to_string());
+                    }
+                    if bad == bank_fields.len() {
+                        lines.push("    #outpt 0".into());
+                        fault_line = lines.len();
+                    }
+                    lines.push("}".into());
+                    lines.push("#d8 1".into());
+                    let text = lines.join("\n") + "\n";
+                    let (files, fault) = if in_include {
+                        (vec![("main.asm".to_string(), "; \u{e9}\n#include \"banks.asm\"\n".to_string()), ("banks.asm".to_string(), text)], ("banks.asm".to_string(), fault_line))
+                    } else {
+                        (vec![("main.asm".to_string(), text)], ("main.asm".to_string(), fault_line))
+                    };
+                    directed.push(Built { files, fault, also: vec![], judge_first: true });
+                }
+            }
+        }
+        rep.absorb(par_cases(&directed, |b, l| {
+            l.nontrivial(&b.files);
+            l.class("fault:malformed-directive");
+            judge(b, &Meta { kind: "malformed-directive", layout: "directed-multi-line-block", dec: "none", coords: json!({"fault_text": "#outpt 0", "fault_line": b.fault.1}) }, l, false);
+        }));
+    }
+    rep.extra("bound", json!({"max_items": maxlen, "alphabet": ITEMS, "rules": RULES, "decorations": DECS, "fault_variants": ["xyz 1", "ld undefined_sym", "ld 0x1ff", "ld 256", "#d8 ,", "#res", "#bogus", "#d8 1 +", "#ruledef { => 0x55 }", "#d byte(300)", "kk = byte(300)", "repeat of each label redeclarable at that position"]}));
     rep.extra("first_error_rule", json!(FIRST_ERROR_RULE));
     rep.assumptions = vec![
         "a base program counts as valid only if the input-side rule says so AND the subject assembles it cleanly".into(),
